@@ -287,6 +287,30 @@ pub fn gen_ends_any(r: &mut Rng, n: usize) -> (Vec<f64>, EndsClass) {
     (gen_ends(r, n, c), c)
 }
 
+/// Breakpoints at infinity: the last 1..3 ends become +inf (so +inf also occurs on pieces that are not the last one)
+/// and / or the first 1..2 ends become -inf. The list stays non-decreasing and non-NaN. Returns true if it changed.
+pub fn infinite_tails(r: &mut Rng, ends: &mut [f64]) -> bool {
+    let n = ends.len();
+    let mut changed = false;
+    if r.below(2) == 0 {
+        let j = r.usize(1, 3).min(n);
+        for e in ends[n - j..].iter_mut() {
+            *e = f64::INFINITY;
+        }
+        changed = true;
+    }
+    if r.below(3) == 0 {
+        let i = r.usize(1, 2).min(n);
+        for e in ends[..i].iter_mut() {
+            if *e != f64::INFINITY {
+                *e = f64::NEG_INFINITY;
+            }
+        }
+        changed = true;
+    }
+    changed
+}
+
 /// Critical query points for a list of ends (all non-NaN).
 pub fn critical_queries(ends: &[f64]) -> Vec<f64> {
     let mut q: Vec<f64> = Vec::with_capacity(ends.len() * 5 + 8);
